@@ -454,5 +454,8 @@ pub fn run(seed: u64, mut ov: impl FnMut(&mut engine::Cfg)) -> ! {
         }
         _ => {}
     }
+    // "a coroutine that is not cancelled never observes a cancellation": neither do the coroutines
+    // that inherit the pooled stacks of this run's coroutines
+    rt::fresh_coroutines_start_clean(3);
     engine::finish_ok()
 }
